@@ -214,6 +214,8 @@ package entry
 //@   requires e == nil || e.Clock != nil
 
 // ---- entry.go: creating and writing entries ----
+// linksStored(e): the blocks of every predecessor and reference of e are already in the block store (C17)
+//@ define linksStored(e iface.IPFSLogEntry) = (forall i int :: 0 <= i && i < len(e.Next) ==> stored[e.Next[i]]) && (forall i int :: 0 <= i && i < len(e.Refs) ==> stored[e.Refs[i]])
 //@ define sameEntryCore(a iface.IPFSLogEntry, b iface.IPFSLogEntry) = a.LogID == b.LogID && a.Payload == b.Payload && a.V == b.V && a.Key == b.Key && a.Sig == b.Sig && a.Identity == b.Identity && a.Hash == b.Hash && a.Clock.Time == b.Clock.Time && a.Clock.ID == b.Clock.ID && (distinctCids(b.Next) ==> sameCids(a.Next, b.Next)) && (distinctCids(b.Refs) ==> sameCids(a.Refs, b.Refs)) && len(a.Next) <= len(b.Next) && len(a.Refs) <= len(b.Refs) && (forall i int :: 0 <= i && i < len(a.Refs) ==> exists j int :: 0 <= j && j < len(b.Refs) && a.Refs[i] == b.Refs[j])
 //@ func Normalize
 //@   requires validEntry(e)
@@ -221,15 +223,23 @@ package entry
 //@   ensures result.LogID == e.LogID && result.Payload == e.Payload && result.Next == e.Next && result.V == e.V && result.Key == e.Key && result.Identity == e.Identity && result.AdditionalData == e.AdditionalData
 //@   ensures result.Clock.Time == e.Clock.Time && result.Clock.ID == e.Clock.ID
 //@   ensures e.V > 1 ==> result.Refs == e.Refs
-//@   ensures e.V <= 1 ==> result.Refs == nil
+//@   ensures e.V <= 1 ==> result.Refs == nil && len(result.Refs) == 0
 
 //@ func ToMultihashWithIO
 //@   requires e == nil || (validEntry(e) && (e.Identity == nil || e.Identity.Signatures != nil))
 //@   requires validAnyIO(io)
+//@   requires [links-are-stored-before-the-entry-is-written] e != nil ==> linksStored(e)
+//@   modifies stored, lastAdded, addCount
 //@   ensures e == nil || ipfsInstance == nil ==> err != nil
+//@   ensures [written-entry-is-stored] err == nil ==> stored[result0]
+//@   ensures [store-only-grows] forall c cid :: old(stored[c]) ==> stored[c]
 
 //@ func CreateEntryWithIO
 //@   requires validAnyIO(io)
+//@   requires [links-are-stored-before-the-entry-is-written] data != nil && ref(data) != nil ==> linksStored(data)
+//@   modifies stored, lastAdded, addCount
+//@   ensures [created-entry-is-stored] err == nil ==> stored[result0.Hash]
+//@   ensures [store-only-grows] forall c cid :: old(stored[c]) ==> stored[c]
 //@   requires data == nil || typeis(data, "*Entry")
 //@   requires identity == nil || (identity.Provider != nil && identity.Signatures != nil)
 //@   ensures ipfsInstance == nil || identity == nil || data == nil || ref(data) == nil ==> err != nil
